@@ -2,7 +2,7 @@
 every writing entry point of the real containers, record what happened.
 
 usage: python -m harness.workers.domain_worker JOB.json RESULT.json"""
-import json, math, sys
+import json, math, operator, sys
 
 BASES = {'-2^100': -2 ** 100, '-2^63': -2 ** 63, '-2^31': -2 ** 31, '0': 0, '2^31': 2 ** 31, '2^32': 2 ** 32,
          '2^63': 2 ** 63, '2^64': 2 ** 64, '2^100': 2 ** 100}
@@ -32,8 +32,14 @@ def classes_for(role, code):
             out.append((dict(t='float', neg=neg, m=m, e=e, asint=1), (-1) ** neg * (m << e)))
     out += [(dict(t='inf', neg=0), float('inf')), (dict(t='inf', neg=1), float('-inf')), (dict(t='nan'), float('nan'))]
     out += [(dict(t='str'), 'ab')]
+    # text that spells a number is text all the same (float() and int() would parse it)
+    out += [(dict(t='str'), s) for s in ('1', '1.5', ' 2 ', '1e3', 'inf', 'nan', '-0', '0x10', '1_0', '')]
     for n in range(0, 9):
         out.append((dict(t='bytes', n=n), b'abcdefgh'[:n]))
+    out += [(dict(t='bytes', n=len(b)), b) for b in (b'7', b'12', b'1.5', b'123456', b'1e3456')]
+    out += [(dict(t='bytearray', n=len(b)), bytearray(b)) for b in (b'3', b'12', b'123456')]
+    import decimal, fractions
+    out += [(dict(t='numobj'), decimal.Decimal('1.5')), (dict(t='numobj'), fractions.Fraction(3, 2))]
     out += [(dict(t='none'), None), (dict(t='plain'), Plain()), (dict(t='tuple'), (1, 2))]
     if code in 'ILUQ':
         # non-dyadic junk is not interesting for integer slots; keep one float
@@ -134,7 +140,7 @@ def main():
         for (cls, is_set, kindname) in ((BT, False, 'BTree'), (BU, False, 'Bucket'), (TS, True, 'TreeSet'), (SE, True, 'Set')):
             if is_set:
                 entries = [('add', lambda t: t.add(x)), ('update', lambda t: t.update([x])),
-                           ('ctor', None), ('ior', lambda t: t.__ior__([x])), ('setstate', None)]
+                           ('ctor', None), ('ior', lambda t: operator.ior(t, [x])), ('setstate', None)]
             else:
                 entries = [('setitem', lambda t: t.__setitem__(x, goodv)), ('setdefault', lambda t: t.setdefault(x, goodv)),
                            ('update', lambda t: t.update([(x, goodv)])), ('ctor', None), ('setstate', None)]
